@@ -50,15 +50,36 @@ type Table struct {
 func (t *Table) Lookup(spelling string) *OptDef { return t.bySp[spelling] }
 func (t *Table) Key(k string) *OptDef           { return t.byKey[k] }
 
-// jqSpellings: spellings the jq manual uses for features of the property's
-// "jq-compatible modes" list. The model accepts them for the fq option that
-// carries the feature whether or not fq's table lists them.
-var jqSpellings = map[string]string{
-	"--rawfile": "raw_file",
+// jqSpellings: the spellings and arity the jq manual gives for the features in
+// the property's "jq-compatible modes" list. For these the model does not depend
+// on fq's table at all: a spelling that fq's table lacks (or binds to something
+// else) shows as a difference in behaviour.
+var jqSpellings = map[string]*OptDef{}
+
+func init() {
+	for _, o := range []OptDef{
+		{Key: "null_input", Short: "-n", Long: "--null-input", Kind: "bool"},
+		{Key: "slurp", Short: "-s", Long: "--slurp", Kind: "bool"},
+		{Key: "string_input", Short: "-R", Long: "--raw-input", Kind: "bool"},
+		{Key: "raw_string", Short: "-r", Long: "--raw-output", Kind: "bool"},
+		{Key: "join_output", Short: "-j", Long: "--join-output", Kind: "bool"},
+		{Key: "null_output", Long: "--raw-output0", Kind: "bool"},
+		{Key: "compact", Short: "-c", Long: "--compact-output", Kind: "bool"},
+		{Key: "arg", Long: "--arg", Kind: "pairs"},
+		{Key: "argjson", Long: "--argjson", Kind: "pairs"},
+		{Key: "raw_file", Long: "--rawfile", Kind: "pairs"},
+		{Key: "expr_file", Short: "-f", Long: "--from-file", Kind: "string"},
+	} {
+		o := o
+		for _, sp := range o.Spellings() {
+			jqSpellings[sp] = &o
+		}
+	}
 }
 
 func loadTable() (*Table, error) {
-	res := fqrun.Run(fqrun.Opts{Args: []string{"-n", "-c", "_opt_cli_opts"}, StdinIsTerminal: true})
+	// no option is used to read the option table (stdin is the JSON text null)
+	res := fqrun.Run(fqrun.Opts{Args: []string{"_opt_cli_opts"}, Stdin: []byte("null")})
 	if res.Exit != 0 || res.Panic != nil {
 		return nil, fmt.Errorf("cannot read option table: %s", res)
 	}
@@ -204,12 +225,20 @@ func buildAlphabet(t *Table) []Token {
 	}
 	sort.Strings(jq)
 	for _, s := range jq {
-		key := jqSpellings[s]
-		if t.Key(key) == nil {
-			continue
+		if t.Lookup(s) != nil {
+			continue // already generated from the table
 		}
-		good, _ := pairsFor(key)
-		add("jq-spelling:"+s, true, bindName[key], s, bindName[key], good[0].v)
+		o := jqSpellings[s]
+		switch o.Kind {
+		case "bool":
+			add("jq-spelling:"+s, true, "", s)
+		case "string":
+			good, _ := valuesFor(o.Key)
+			add("jq-spelling:"+s, true, "", s, good[0].v)
+		case "pairs":
+			good, _ := pairsFor(o.Key)
+			add("jq-spelling:"+s, true, bindName[o.Key], s, bindName[o.Key], good[0].v)
+		}
 	}
 	// combined short flags: every ordered pair of distinct bool shorts
 	for _, a := range boolShort {
